@@ -214,10 +214,11 @@ def gridMesh (ext : List Nat) (g : GridGeom) : Option Mesh :=
   | none => none
   | some rows => some ⟨3, gridPoints ext g, [(ct, rows)]⟩
 
-/-- what `VTKXMLReader.read` builds for a structured file: the mesh, point data as given, every
+/-- what `VTKXMLReader.read` builds for a structured file from the mesh description the reader hands to the
+    mesh class (`readGrid` below supplies it): the mesh, point data as given, every
     cell-data array indexed with `arange(num_cells)` and attached to the mesh's single cell type.
     `none` = an exception / failed assertion on the way. -/
-def readGrid (extent : List Int) (g : GridGeom) (pfs : List PointField) (cfs : List (String × NdArr)) :
+def readGridCore (extent : List Int) (g : GridGeom) (pfs : List PointField) (cfs : List (String × NdArr)) :
     Option MeshFields :=
   match cellsPerDirection extent with
   | none => none
@@ -231,6 +232,27 @@ def readGrid (extent : List Int) (g : GridGeom) (pfs : List PointField) (cfs : L
       if cfs.any (fun cf => cf.2.shape.head? != some nc) || nc != (m.cellsOf ct).length then none
       else if pfs.any (fun pf => pf.values.shape.head? != some m.numPoints) then none
       else some ⟨m, pfs, cfs.map fun cf => ⟨cf.1, ct, cf.2⟩⟩
+
+/-- lower ends of the six `Extent` numbers -/
+def lowerEnds (e : List Int) : List Int := [e.getD 0 0, e.getD 2 0, e.getD 4 0]
+
+/-- the description a reader hands to the mesh class.  `VTIReader._make_mesh` (since fix a3961d2):
+    `origin = Origin + basis.dot(spacing * lower)` with `lower` the lower ends of the piece extent — VTK counts
+    the structured indices of image data from 0, the piece holds the indices `lo … hi`.  `.vtr/.vts` carry explicit
+    coordinates: nothing to shift. -/
+def shiftGeom (lo : List Int) : GridGeom → GridGeom
+  | .image U o b s => .image U (imagePointZ U o b s lo) b s
+  | g => g
+
+/-- the products `B_rc · (spacing_c · lo_c)` of the shift are whole numbers of units (always true for lo = 0) -/
+def shiftExact (lo : List Int) : GridGeom → Bool
+  | .image U _ b s => imagePointExact U b s lo
+  | _ => true
+
+/-- `reader.read()` of a `.vti/.vtr/.vts` file with the given `Extent` and geometry attributes / arrays -/
+def readGrid (extent : List Int) (g : GridGeom) (pfs : List PointField) (cfs : List (String × NdArr)) :
+    Option MeshFields :=
+  readGridCore extent (shiftGeom (lowerEnds extent) g) pfs cfs
 
 /-! ### sufficient condition for exact floating-point evaluation of the image formula -/
 
